@@ -79,8 +79,9 @@ def parseRuns (cwd : String) (j : Json) : Option (List Run) := do
       let s ← ss.find? (·.name = sn)
       let inv ← getNat? r "inv"
       let excl ← getBool? r "excl"
+      let done0 := (getNat? r "done0").getD 0
       let tl ← go rest (i + 1)
-      pure (mkRun cwd i e s inv excl :: tl)
+      pure (mkRun cwd i e s inv excl done0 :: tl)
   go rs.toList 0
 
 /-- results are keyed by (script, directory the script runs in) -/
@@ -107,7 +108,7 @@ def seqLoop (c : Cfg) (s : Sched) : Nat → List Nat → St → List Run → St 
       seqLoop c s fuel ks' p.1 p.2
 
 def runStatusJ (st : St) (r : Run) : Json :=
-  Json.mkObj [("completed", Json.num (completed st r.id)),
+  Json.mkObj [("completed", Json.num (r.done0 + completed st r.id)), ("inv", Json.num r.inv),
               ("fail_imm", Json.bool (decide (r.id ∈ st.failImm))),
               ("failed", Json.bool (isFailed st r.id)),
               ("ebuild", buildJ r.ebuild), ("sbuild", buildJ r.sbuild), ("env", envJ r.env)]
@@ -131,8 +132,10 @@ def handle (op : String) (j : Json) : Option Json :=
         let picks ← (← getArr? j "picks").toList.mapM asNat?
         let pc : PCfg := { toCfg := c, sched := sched, locked := locked }
         let n := numThreads cpu
-        let seqRuns := runs.filter (·.excl)
-        let parRuns := runs.filter (fun r => !r.excl)
+        -- executor.py:127 `_filter_out_completed_runs` before scheduling
+        let active := runs.filter (fun r => r.done0 < r.inv)
+        let seqRuns := active.filter (·.excl)
+        let parRuns := active.filter (fun r => !r.excl)
         let (st, left, ks) := seqLoop c sched total choices {} seqRuns
         let ps0 : PSt := { st := st, remaining := parRuns, choices := ks, workers := List.replicate n {} }
         -- replay the observed schedule, recording whether each pick could move
@@ -153,7 +156,7 @@ def handle (op : String) (j : Json) : Option Json :=
           ("pcs", Json.arr (ps.workers.map (fun w => Json.str (pcStr w.pc))).toArray),
           ("moved", Json.arr (moved.map Json.bool).toArray)])
       else
-        let (st, left, _) := seqLoop c sched total choices {} runs
+        let (st, left, _) := seqLoop c sched total choices {} (runs.filter (fun r => r.done0 < r.inv))
         pure (Json.mkObj [
           ("parallel", Json.bool false),
           ("events", Json.arr (st.trace.map (evJ cwd home)).toArray),
